@@ -47,7 +47,11 @@ HOSTILE_TAGS = ["os.system", "os.popen", "subprocess.Popen", "subprocess.call", 
                 "builtins.Exception__", "__builtins__.eval", "builtins.ValueError.__init__", "sqlite3.connect", "sqlite3.register_adapter",
                 "sqlite3.enable_callback_tracebacksError", "sqlite3.NoSuchError", "struct.pack", "struct.Struct", "struct.error.x", "float", "int", "str", "", ".", "..",
                 "builtins.", ".ValueError", "builtins.ValueError.args", "collections.OrderedDict", "decimal.Decimal", "uuid.UUID", "datetime.datetime",
-                "ctypes.CDLL", "socket.socket", "pickle.loads", "shutil.rmtree", "tempfile.mkstemp", "threading.Thread", "code.InteractiveConsole"]
+                "ctypes.CDLL", "socket.socket", "pickle.loads", "shutil.rmtree", "tempfile.mkstemp", "threading.Thread", "code.InteractiveConsole",
+                # subclasses of Pyro's own classes that exist in this process (the application's, and the Pyro4 compatibility layer's)
+                "checks.c04_subs.AuditedProxy", "checks.c04_subs.TaggedURI", "checks.c04_subs.LocalDaemon", "checks.c04_subs.AuditedProxy",
+                "Pyro5.compatibility.Pyro4.Proxy", "Pyro5.compatibility.Pyro4.URI", "Pyro5.compatibility.Pyro4.Daemon", "Pyro4.core.Proxy", "Pyro4.Proxy",
+                "Pyro4.core.URI", "Pyro5.nameserver.NameServerDaemon", "Pyro5.client.Proxy2", "c04_subs.AuditedProxy"]
 NONSTR_TAGS = [123, None, True, 1.5, ["list"], {"d": 1}]
 BYTES_TAGS = [b"os.system", b"Pyro5.core.URI", b"builtins.eval", b"\xff\xfe", b"a__b", b"ValueError"]
 
@@ -302,6 +306,11 @@ def run_decode(env, sername, data, call, must_raise, rec, payload, buf="bytes"):
     if "checks.c04_bait" in sys.modules and not bait_loaded_before:
         rec.violation("decoder-imports-module", "bait module imported", payload)
         return
+    subs = sys.modules.get("checks.c04_subs")
+    if subs is not None and subs.LOG:
+        rec.violation("application-subclass-code-ran", "%s.%s ran code of an application subclass of a Pyro class while decoding (no converter registered): %r" % (sername, path, subs.LOG[:4]), payload)
+        del subs.LOG[:]
+        return
     if "checks.c04_bait" in sys.modules and len(sys.modules["checks.c04_bait"].LOG) > 1:
         rec.violation("bait-class-touched", "bait log: %r" % (sys.modules["checks.c04_bait"].LOG[:5],), payload)
         del sys.modules["checks.c04_bait"].LOG[1:]
@@ -382,6 +391,8 @@ def setup():
     P = fixture.pyro()
     import Pyro5.nameserver  # noqa: everything a decoder may legitimately touch is imported before the hook is armed
     import serpent, msgpack, ast, zlib, base64  # noqa
+    import Pyro5.compatibility.Pyro4  # noqa: defines subclasses of Proxy / URI / Daemon, as an application may
+    import checks.c04_subs  # noqa
     sys.modules.pop("checks.c04_bait", None)
     return P, Monitor(P)
 
